@@ -263,6 +263,9 @@ class _Tokenizer:
         prev_end_pos = SrcPos(src_name, 1, 1)
         for line_id, text_line in enumereted_lines:
             col = 0
+            if cur_span_symbol is None:
+                # first token of the line starts on this line
+                prev_end_pos = SrcPos(src_name, line_id, 1)
             while col < len(text_line):
                 if cur_span_symbol is not None:
                     # we are inside 'span' token (for example inside
